@@ -1479,6 +1479,22 @@ pub fn run(args: &Args, out: &mut Out) {
                 out.case(&line, &obs, "ok");
                 continue;
             }
+            if f.first() == Some(&"C19.raw") && f.len() == 3 {
+                // a hand-written program (`\n` = line break), for probing what the front end builds; not judged and
+                // not modelled (the model answers `unsupported-op`)
+                let src = f[2].replace("\\n", "\n");
+                let real = run_real_lines(&src, f[1], false);
+                let obs = match &real {
+                    Real::Accepted => "ok".to_string(),
+                    Real::AcceptedThenError(e) => format!("ok-then:{}", e),
+                    Real::Unknown(l) => format!("unknown@L{}", show_k(*l)),
+                    Real::Mismatch(l, n) => format!("mismatch@L{} hlsl={}/{} metal={}/{}", show_k(*l), n[0], n[1], n[2], n[3]),
+                    Real::Error(e) => format!("error:{}", e),
+                    Real::Panic(m) => format!("panic:{}", m),
+                };
+                out.case(&line, &obs, "ok");
+                continue;
+            }
             if f.first() == Some(&"C19.prog") {
                 match parse_prog(&f) {
                     Some(p) => run_prog(&p, out, &mut hist),
@@ -1926,6 +1942,11 @@ fn sharing_streams(args: &Args, rng: &mut Rng, out: &mut Out, hist: &mut Hist) {
         Ty::Struct(vec![sc('f'), Ty::Struct(vec![])]),
         Ty::Struct(vec![sc('d'), sc('h')]),
         Ty::Struct(vec![Ty::Arr(Box::new(Ty::Struct(vec![])), 2)]),
+        // shared definitions that are not structs: one enum (the same `EnumId`), a typedef'd array, a vector
+        Ty::Enum(false),
+        Ty::Arr(Box::new(sc('h')), 3),
+        Ty::Arr(Box::new(Ty::Struct(vec![sc('f'), Ty::Struct(vec![])])), 2),
+        Ty::Vec('h', 3),
     ];
     let mut n = 0usize;
     for (si, shared) in shared_pool.iter().enumerate() {
@@ -1949,10 +1970,22 @@ fn sharing_streams(args: &Args, rng: &mut Rng, out: &mut Out, hist: &mut Hist) {
                 let t = targets[n % 3];
                 let pipe = n % 5 == 0;
                 let style = if n % 4 == 0 { rng.next() | 1 } else { 0 };
-                run_prog(&mk(t, pipe, style, vec![shared.clone(), a, b], vec![(sa.clone(), 1), (sb, 2)]), out, hist);
+                // now and then the shared struct is a checked element type itself: after the types that contain it
+                // (it was laid out as a member before), between them, or first
+                let mut ss = vec![(sa.clone(), 1), (sb.clone(), 2)];
+                let shared_is_struct = matches!(shared, Ty::Struct(_));
+                if (ia + ib) % 4 == 1 && shared_is_struct {
+                    let sx = site_pairs[(ia + 3 * ib) % site_pairs.len()].0.clone();
+                    ss.insert((ia + ib / 4) % 3, (sx, 0));
+                }
+                run_prog(&mk(t, pipe, style, vec![shared.clone(), a, b], ss), out, hist);
                 let mut both = in_context(&ca.0, member(0), &ca.1);
                 both.extend(in_context(&cb.0, member(1), &cb.1));
-                run_prog(&mk(t, pipe, style, vec![shared.clone(), Ty::Struct(both)], vec![(sa, 1)]), out, hist);
+                let mut ss = vec![(sa, 1)];
+                if (ia + ib) % 4 == 3 && shared_is_struct {
+                    ss.insert((ia / 2) % 2, (sb, 0));
+                }
+                run_prog(&mk(t, pipe, style, vec![shared.clone(), Ty::Struct(both)], ss), out, hist);
             }
         }
     }
@@ -1968,6 +2001,7 @@ fn sharing_streams(args: &Args, rng: &mut Rng, out: &mut Out, hist: &mut Hist) {
         tys.push(match rng.below(6) {
             0 | 1 => Ty::Struct(vec![]),
             2 => rng.pick(&shared_pool).clone(),
+            3 if !calm => rng.pick(&shared_pool).clone(),
             3 => Ty::Struct(vec![leaf(rng)]),
             4 => Ty::Struct(vec![leaf(rng), leaf(rng)]),
             _ => agreeing_struct(rng),
